@@ -193,6 +193,9 @@ func runProc(p *prop, bin string, name string, args []string, extraEnv []string,
 	cmd.Dir = cwd
 	cmd.Env = append(env(repo), extraEnv...)
 	cmd.Env = append(cmd.Env, "VERIF_STATS="+statsFile)
+	if repo != "/repo" && !hasEnv(extraEnv, "VERIF_REPLAY_DIR") {
+		cmd.Env = append(cmd.Env, "VERIF_REPLAY_DIR="+filepath.Join(workDir, "alt-replays", p.ID))
+	}
 	var buf bytes.Buffer
 	cmd.Stdout = &buf
 	cmd.Stderr = &buf
@@ -350,7 +353,12 @@ func check(p *prop, repo, tier string, seed int64) int {
 	os.RemoveAll(statsDir)
 	os.MkdirAll(statsDir, 0o755)
 	// Stale replays of this property are removed so a reported path is always from this run.
-	os.RemoveAll(filepath.Join(verifDir, "replays", p.ID))
+	// Runs against a scratch tree (VERIF_REPO) keep their replays apart from the real ones.
+	replayDir := filepath.Join(verifDir, "replays", p.ID)
+	if repo != "/repo" {
+		replayDir = filepath.Join(workDir, "alt-replays", p.ID)
+	}
+	os.RemoveAll(replayDir)
 	os.RemoveAll(filepath.Join(workDir, "journal", p.ID))
 
 	var results []procResult
@@ -539,6 +547,15 @@ func check(p *prop, repo, tier string, seed int64) int {
 	return 0
 }
 
+func hasEnv(env []string, key string) bool {
+	for _, kv := range env {
+		if strings.HasPrefix(kv, key+"=") {
+			return true
+		}
+	}
+	return false
+}
+
 func saveLog(p *prop, r procResult) {
 	dir := filepath.Join(workDir, "logs", p.ID)
 	os.MkdirAll(dir, 0o755)
@@ -573,6 +590,9 @@ func crashJournal(p *prop, r procResult) string {
 			continue
 		}
 		dir := filepath.Join(verifDir, "replays", p.ID)
+		if os.Getenv("VERIF_REPO") != "" && os.Getenv("VERIF_REPO") != "/repo" {
+			dir = filepath.Join(workDir, "alt-replays", p.ID)
+		}
 		os.MkdirAll(dir, 0o755)
 		dst := filepath.Join(dir, "crash-"+filepath.Base(f))
 		os.WriteFile(dst, b, 0o644)
